@@ -59,7 +59,7 @@ class Ev:
 
 
 class PathState:
-    __slots__ = ('env', 'shape', 'conds', 'events', 'weak', 'alias', 'expr')
+    __slots__ = ('env', 'shape', 'conds', 'events', 'weak', 'alias', 'expr', 'kw')
 
     def __init__(self):
         self.env = {}
@@ -69,6 +69,7 @@ class PathState:
         self.weak = 0
         self.alias = {}     # local name -> field whose container (or element container) it IS
         self.expr = {}      # local name -> AST of its (pure, call-free) defining expression: temporaries in tests
+        self.kw = {}        # local dict name -> {constant key: constant value or '?'} written on this path (**kwargs plumbing)
 
     def copy(self):
         p = PathState()
@@ -79,7 +80,63 @@ class PathState:
         p.weak = self.weak
         p.alias = dict(self.alias)
         p.expr = dict(self.expr)
+        p.kw = {k: dict(v) for k, v in self.kw.items()}
         return p
+
+
+def _const(v):
+    return v.value if isinstance(v, ast.Constant) else '?'
+
+
+def kw_of_expr(st, e):
+    """constant-keyed content known for a dict-valued expression: a local name, dict(X, k=v), {**X, 'k': v}"""
+    if isinstance(e, ast.Name):
+        return dict(st.kw.get(e.id, {}))
+    if isinstance(e, ast.Call) and isinstance(e.func, ast.Name) and e.func.id == 'dict':
+        out = {}
+        for a in e.args[:1]:
+            out.update(kw_of_expr(st, a))
+        for k in e.keywords:
+            if k.arg:
+                out[k.arg] = _const(k.value)
+            else:
+                out.update(kw_of_expr(st, k.value))
+        return out
+    if isinstance(e, ast.Dict):
+        out = {}
+        for k, v in zip(e.keys, e.values):
+            if k is None:
+                out.update(kw_of_expr(st, v))
+            elif isinstance(k, ast.Constant):
+                out[k.value] = _const(v)
+        return out
+    return {}
+
+
+def kw_effects(st, n):
+    """record what statement n writes into local dicts: d[k] = v / d.update(k=v) / d.update({k: v}) / d.setdefault(k, v) / d.pop(k)"""
+    if isinstance(n, ast.Assign):
+        for t in n.targets:
+            if isinstance(t, ast.Subscript) and isinstance(t.value, ast.Name) and isinstance(t.slice, ast.Constant):
+                st.kw.setdefault(t.value.id, {})[t.slice.value] = _const(n.value)
+            if isinstance(t, ast.Name):
+                known = kw_of_expr(st, n.value)
+                if known or isinstance(n.value, (ast.Dict, ast.Call)) and t.id in st.kw:
+                    st.kw[t.id] = known
+    call = n.value if isinstance(n, ast.Expr) else None
+    if isinstance(call, ast.Call) and isinstance(call.func, ast.Attribute) and isinstance(call.func.value, ast.Name):
+        d = call.func.value.id
+        if call.func.attr == 'update':
+            for k in call.keywords:
+                if k.arg:
+                    st.kw.setdefault(d, {})[k.arg] = _const(k.value)
+            for a in call.args:
+                for k_, v_ in kw_of_expr(st, a).items():
+                    st.kw.setdefault(d, {})[k_] = v_
+        elif call.func.attr == 'setdefault' and len(call.args) == 2 and isinstance(call.args[0], ast.Constant):
+            st.kw.setdefault(d, {}).setdefault(call.args[0].value, _const(call.args[1]))
+        elif call.func.attr == 'pop' and call.args and isinstance(call.args[0], ast.Constant):
+            st.kw.get(d, {}).pop(call.args[0].value, None)
 
 
 def is_empty_literal(n):
@@ -1004,9 +1061,30 @@ class Interp:
             al = s.alias.get(a_.id) if isinstance(a_, ast.Name) else direct_field_alias(a_)
             if al is not None:
                 cs.alias[p_] = al
+        # **kwargs plumbing: what is known about dict-valued arguments travels into the callee; the ENTER event records the
+        # constant keywords effective at this call (explicit ones and those inside **<dict>) and keys supplied twice
+        named = set(callee.params()) | {a_.arg for a_ in callee.node.args.kwonlyargs}
+        eff, twice = {}, set()
+        for k in call.keywords:
+            if k.arg:
+                eff[k.arg] = _const(k.value)
+        spread = {}
+        for k in call.keywords:
+            if k.arg is None:
+                spread.update(kw_of_expr(s, k.value))
+        twice = set(spread) & set(eff)
+        for k_, v_ in spread.items():
+            eff.setdefault(k_, v_)
+        for p_, a_ in zip(params, call.args):
+            known = kw_of_expr(s, a_)
+            if known or (isinstance(a_, ast.Name) and a_.id in s.kw):
+                cs.kw[p_] = known
+        kwparam = callee.node.args.kwarg.arg if callee.node.args.kwarg else None
+        if kwparam:
+            cs.kw[kwparam] = {k_: v_ for k_, v_ in eff.items() if k_ not in named}
         cs.events = s.events + [self._mk(Ev('ENTER', call.lineno, callee.name, None, callee.kind,
                                             {'callee': callee, 'awaited': awaited, 'call': call,
-                                             'offset': getattr(call, '_param_offset', 1)}))]
+                                             'offset': getattr(call, '_param_offset', 1), 'kw': eff, 'kw_twice': twice}))]
         cs.conds = [c for c in s.conds if c[0].startswith('self.')]
         for cstate, cstatus in sub.block(callee.node.body, cs):
             self.count += 1
@@ -1060,6 +1138,7 @@ class Interp:
                 return
             s = st.copy()
             self.ev_expr(s, n.value)
+            kw_effects(s, n)
             yield s, 'next'
         elif isinstance(n, (ast.Assign, ast.AnnAssign)):
             value = n.value
@@ -1067,6 +1146,9 @@ class Interp:
             if value is None:
                 yield st, 'next'
                 return
+            if isinstance(n, ast.Assign):
+                st = st.copy()
+                kw_effects(st, n)
             tsc = self.top_self_call(value)
             if tsc:
                 def cont(s, rt, rs):
